@@ -28,7 +28,7 @@ CLAIMS['C20'] = dict(
     text='Static analysis of minidump-stackwalk: no undischarged panic edge in the binary (the --features unimplemented!() arm is discharged by agreement between the clap value_parser list and the handled arms), '
          'every process::exit has status 1 after a diagnostic, no failure exit is reachable after a printer call, the output writers are handed only to ProcessState::print/print_brief/print_json and print_minidump_dump, '
          'and each printer call is control-dependent on the option that selects it with cli.brief / cli.pretty / the cyborg file wired as documented. This decides the wiring clauses for every input and option set; '
-         'byte equality with the library follows from "same call, same writer" and is not compared on values.',
+         'byte equality with the library follows from "same call, same writer" and is not compared on values. Raw-dump mode: every fetched stream type is printed and no eagerly evaluated fallback take()s a stream (C20.6).',
     note='Trusted: clap (value_parser and ArgGroup enforcement), tokio::select!, rustc MIR, the extractor. Renaming the mode variables (human/json/raw_dump) is reported as a missing anchor.',
     ref='DESIGN.md §3 C20')
 
@@ -39,7 +39,7 @@ CLAIMS['C18'] = dict(
          'the validity alias groups, REGISTERS and the sp/ip names are extracted from the MIR of each impl and compared name by name (about 2300 obligations: same names, same place for get and set, '
          'plain field read / plain store of `val`, distinct places for distinct canonical names, aliases memoize to a canonical name with the same place, validity honoured through both spellings, '
          'sp/ip accessors read the named place, every dispatcher arm delegates to its own variant\'s impl, get_register guards get_register_always with register_is_valid). All obligations are enumerated and '
-         'discharged on every run, which is a proof of the table-level statement given Rust\'s field-assignment semantics; it is exhaustive over names, not sampled.',
+         'discharged on every run, which is a proof of the table-level statement given Rust\'s field-assignment semantics; it is exhaustive over names, not sampled. default_memoize_register is an exact-equality position() search returning the table\'s own spelling.',
     note='Trusted base: rustc nightly MIR construction (string-literal match lowering), the mirfacts extractor, the PathExplorer in py/mirq.py, Rust semantics of field assignment and slice indexing with constant indices. Values are never computed.',
     ref='DESIGN.md §3 C18')
 CLAIMS['C03'] = dict(
@@ -65,7 +65,7 @@ CLAIMS['C12'] = dict(
     text='The at-most-once, same-outcome, counter and no-self-deadlock clauses follow from a lock discipline visible in the code on every path: SymbolSupplier::locate_symbols (resolved and dyn) is called only from the closure run under the per-module slot '
          '(plus the documented Http->local delegation); CachedAsyncResult::get takes the lock once, tests is_none and fills through the same guard with no unlock in between; the slot map is reached only through cache_default(module_key) with all four identity fields; '
          'symbols_requested += 1 dominates and symbols_processed += 1 post-dominates the supplier call; no std guard is live across an await; no slot closure can reach its own slot again. These are static facts for all schedules; executor fairness, '
-         'the async mutex and CacheMap are trusted; cancellation is excluded by the property.',
+         'the async mutex and CacheMap are trusted; cancellation is excluded by the property. Counter updates are same-statement read-modify-writes under one guard (no value carried across an await).',
     note='Trusted: futures_util::lock::Mutex, cachemap2::CacheMap (insert-only, stable slots), rustc MIR of coroutines before the state transform. dyn calls are over-approximated by method name.',
     ref='DESIGN.md §3 C12')
 
@@ -82,7 +82,7 @@ CLAIMS['C16'] = dict(
     text='Cache atomicity as facts about every CFG path, hence every interruption point: commit_cache_file is called only from fetch_symbol_file, only after the Ok edge of parse_async and only with a live temp file; '
          'persist_noclobber happens only after the end-of-body edge of the download loop; files are created only through NamedTempFile::new_in(tmp) (no clobbering / keeping / renaming APIs anywhere in the crate); the temp file is written only by the data callback '
          '(exactly the bytes it was handed; a failed write drops the temp file), by the INFO URL trailer that dominates the persist, and by the raw chunk loop; the local lookup dominates every download and only Err(NotFound) cascades; '
-         'the INFO URL line round-trips into SymbolFile.url. RAII deletion of NamedTempFile on drop/cancellation and the atomicity of persist_noclobber are trusted.',
+         'the INFO URL line round-trips into SymbolFile.url. RAII deletion of NamedTempFile on drop/cancellation and the atomicity of persist_noclobber are trusted. The temp file is created exactly once before streaming starts and outside the data callback, which may only give the handle up (C16.6).',
     note='Trusted: tempfile (delete on drop, atomic persist_noclobber), reqwest, the file system. That the callback receives exactly the consumed bytes is C10.1.',
     ref='DESIGN.md §3 C16')
 
@@ -123,28 +123,28 @@ CLAIMS['C04'] = dict(
     text='Narrow claim: necessary structural conditions only. Decided for every input: technique priority cfi > frame pointer > scan with each later technique guarded by frame.is_none() and no way back; technique labels; '
          'arm64.rs and arm64_old.rs are the same MIR modulo the context type; every register name the unwinders use exists in its context\'s tables and every name inserted into or tested against a validity set is the canonical (memoized) spelling; '
          'scan windows (40/160 words, 15 x 16 bytes on amd64 Windows, 1024 bytes on MIPS) equal the documented values. Two alias-spelling defects found by the last rule were repaired in /repo. '
-         'That the right frames come out of a given stack is behavioural and NOT decided: a fault inside a technique\'s arithmetic is invisible here. The x86 FPO technique is checked as a formula table (shared with C07.6): reaching definitions along every path to every set_caller_register call, compared as linear address forms with the documented formulae, and the two decisions compared with the documented ones.',
+         'That the right frames come out of a given stack is behavioural and NOT decided: a fault inside a technique\'s arithmetic is invisible here. The x86 FPO technique is checked as a formula table (shared with C07.6): reaching definitions along every path to every set_caller_register call, compared as linear address forms with the documented formulae, and the two decisions compared with the documented ones. ARM64 pointer-authentication mask: all ones below the next power of two above max(2^47-1, end of the highest module) (C04.8).',
     note='Trusted: rustc MIR, the C18 tables (reused). The twin comparison is order-sensitive over statements and terminators with unnamed locals anonymised; reordering independent statements in only one twin is reported.',
     ref='DESIGN.md §3 C04')
 CLAIMS['C08'] = dict(
     technique='who-may-call, constructor guard dominance, path-sensitive skeleton of the two range-map builders, payload typing',
     text='Narrow claim: range maps are built only through the two safe builders, every Range::new sits in a constructor that rejects empty and overflowing ranges, both builders sort first and on no feasible path push an entry '
          'unless last.end < range.start was established (conflicting overlaps skipped, equal neighbours merged), payloads are unique indices or self-describing records, the unloaded-module list is sorted and filtered with contains, '
-         'and modules with size 0 or overflowing base + size never enter a list. The data-structure invariant for every arrangement of ranges (lookup soundness and completeness) is not decided.',
+         'and modules with size 0 or overflowing base + size never enter a list. The data-structure invariant for every arrangement of ranges (lookup soundness and completeness) is not decided. The STACK WIN pre-filter drops or shortens records only under the symmetric Range::intersects test (C08.7, path-sensitive).',
     note='Trusted: range-map crate (RangeMap::get / try_from_iter), slice::sort_by_key. Path feasibility pruning uses purity of the comparisons and saturating_add(e,k) >= e.',
     ref='DESIGN.md §3 C08')
 CLAIMS['C10'] = dict(
     technique='consume/callback pairing by dominance, return-shape dataflow, transition-table equality of the sync and async parse loops; finite-domain abstract interpretation of the streaming loops (staleness bit)',
     text='Narrow claim: in SymbolFile::parse and parse_async every buf.consume(n) is dominated by callback(&buf.data()[..n]) with nothing touching the buffer in between and no other way for bytes to leave the window, so the bytes handed to the callback are exactly the consumed prefix; '
          'parse_more returns 0 or the length of the input trimmed after its last newline; the two loops have identical transition tables (every buffer / flag / return effect with its guard conditions), so HTTP chunking feeds the same state machine as a Read; the cache tee is a pure writer. '
-         'Equality of parse outcomes across chunk schedules is behavioural and not decided. The same boolean abstraction decides (C10.5) that fully_consumed is never tested for the end-of-input decision while bytes have arrived since it was last computed, for every chunking.',
+         'Equality of parse outcomes across chunk schedules is behavioural and not decided. The same boolean abstraction decides (C10.5) that fully_consumed is never tested for the end-of-input decision while bytes have arrived since it was last computed, for every chunking. Liveness analysis shows the remaining-input slice is the only local carried round parse_more\'s line loop (C10.6): no per-call state that a chunk boundary would reset.',
     note='Trusted: circular::Buffer (data / consume semantics), rustc MIR of the coroutine before the state transform.',
     ref='DESIGN.md §3 C10')
 CLAIMS['C11'] = dict(
     technique='sort-before-search dominance, derived-Ord field order, key projection shape, guard dominance on base subtraction; path-sensitive found-implies-reported rule',
     text='Narrow claim: the searches of symbolication run on data sorted by the very key they search (the sort dominates the store; Inlinee orders by (depth, address), PublicSymbol by address), the inlinee candidate is re-checked for depth and coverage, '
          'the module base is never subtracted from a smaller address, reported bases are the looked-up record\'s address plus the module base, the PUBLIC fallback is a reverse scan for address <= addr, and inline frames are reversed exactly once after symbolication. '
-         'That the right record is returned for every record set is not decided. Found implies reported (C11.5): path-sensitively, not-found outcomes of get_outermost_sourceloc are reached only with the lookups consulted and empty, the inline call site does not depend on the line lookup, and in fill_symbol the reporting calls post-dominate the found edges.',
+         'That the right record is returned for every record set is not decided. Found implies reported (C11.5): path-sensitively, not-found outcomes of get_outermost_sourceloc are reached only with the lookups consulted and empty, the inline call site does not depend on the line lookup, and in fill_symbol the reporting calls post-dominate the found edges. PUBLIC cut-off: the fallback is used exactly when no previous FUNC starts at or after it (C11.6, path-sensitive).',
     note='Trusted: slice::binary_search_by_key, RangeMap::get, rustc MIR.',
     ref='DESIGN.md §3 C11')
 
@@ -152,7 +152,7 @@ CLAIMS['C02'] = dict(
     technique='endianness provenance dataflow on every scroll read, LE/BE twin comparison of byte-order branches, derive pairing from the impl table, insert discipline of the directory loop; who-may-call on text decoders',
     text='Narrow claim: only the byte-order and layout-pairing clauses. Every scroll read that takes an Endian context (329 call sites in minidump and minidump-common) receives an endianness data-flow-derived from a parameter or field, '
          'and Endian constants occur only in the signature probe of Minidump::read; every branch on the byte order has a Little and a Big arm that are LE/BE twins; every format.rs type read through scroll derives Pread and SizeWith from one field list '
-         '(the five hand-written readers are a reviewed list); duplicate directory entries are stored by an unconditional insert in file order, so the last one is served. Field offsets/padding against the serializer, identifier derivation and memory contents relate values to values and are NOT decided. Text decoding: only the BOM-agnostic, replacement-free encoding_rs decoders, with the UTF-16 encoding selected by the byte order (arms read from discriminant facts).',
+         '(the five hand-written readers are a reviewed list); duplicate directory entries are stored by an unconditional insert in file order, so the last one is served. Field offsets/padding against the serializer, identifier derivation and memory contents relate values to values and are NOT decided. Text decoding: only the BOM-agnostic, replacement-free encoding_rs decoders, with the UTF-16 encoding selected by the byte order (arms read from discriminant facts). The directory loop records entries only and the cached system info is read through the finished map (C02.4b).',
     note='Trusted: scroll and its derives, rustc MIR and impl table.',
     ref='DESIGN.md §3 C02')
 CLAIMS['C15'] = dict(
@@ -160,7 +160,7 @@ CLAIMS['C15'] = dict(
     text='Narrow claim: structure, not values. The tree of object keys print_json can emit (reconstructed from the MIR of every json! expansion, map["k"] = .. and insert mutation, and serde-derived struct reachable from it) equals the key tree of json-schema.md in both directions '
          '(one reviewed documentation gap: proc_limits); every key documented <hexstring> is built by json_hex, an Address (serialised through its Display impl) or a hex format; every documented enumeration value can be produced; '
          'set_print_context() dominates all formatting; thread_count / frame_count / frame / module_offset / function_offset / the crashing_thread copy / modules are computed from the data they duplicate; bytes reach the writer only through serde_json. '
-         'Validity and escaping are serde_json\'s; schema conformance of values for hostile states is not decided. set_print_context stores this state\'s pointer width into the thread-local unconditionally and is its only writer (C15.3b).',
+         'Validity and escaping are serde_json\'s; schema conformance of values for hostile states is not decided. set_print_context stores this state\'s pointer width into the thread-local unconditionally and is its only writer (C15.3b). Every JSON array is a map over the whole collection it reports: no truncating / filtering adapter (C15.6).',
     note='Trusted: serde_json (valid UTF-8 JSON, escaping, BTreeMap-backed Map), the json! macro expansion shape as seen in MIR, rustc.',
     ref='DESIGN.md §3 C15')
 
